@@ -19,13 +19,29 @@ Verdicts compared per bundle:
       (`lib.VerifyRecorder`): the model must ask about exactly the same (key, octets, signature) — a miss makes it answer
       "unsupported", which is reported as a disagreement — and must build the same TBS octets byte for byte.
 (c) != (a) or (c) != (b) -> failing input (VIOLATION);  (c) != (d) -> broken tie (disagreement).
+
+Whole REQUESTS (`roll_stream`): 2..9 bundles in the layouts of a ZSK roll (outgoing + current / current alone / current +
+incoming; the same two keys throughout; a sliding window of two over four keys; three keys throughout; random), every key
+appearing in several bundles under ONE identifier, every bundle signed with its own inception / expiration.  At every
+(bundle position, key) pair — in particular at positions AFTER one where the same key signed correctly — one signature is
+omitted / misattributed (to nobody, to another key of the bundle) / bit-flipped / replaced by the same key's signature from
+ANOTHER bundle / replaced by another key's signature under this key's identifier.  Judged through `validate_request` and
+`check_proof_of_possession` on the whole request against (a) construction, (b) the independent oracle applied to every
+bundle, (d) the model on the same request (`validate_request`, `ksr_check check_proof_of_possession`).
+State carried between requests (`pair_stream`): request A, then request B in the SAME process (B re-using A's identifiers
+with a signature missing / other key material / other signers / a same-tag stranger key; A tampered and B honest; B == A);
+B's verdict must be the property's, the model's, and the verdict of a FRESH process that sees B alone.
 """
 
 from __future__ import annotations
 
 import base64
 import itertools
+import json
 import logging
+import os
+import subprocess
+import sys
 from typing import Any
 
 import lib
@@ -75,10 +91,11 @@ def mk_bundle(case: dict[str, Any], bid: str = "b1") -> Any:
 
     ks = [mk_key(k) for k in case["keys"]]
     ss = [mk_sig(s) for s in case["sigs"]]
+    inc, exp = us_dt(case.get("inc", INC)), us_dt(case.get("exp", EXP))
     if case.get("as_set"):
-        return RequestBundle(id=bid, inception=us_dt(INC), expiration=us_dt(EXP), keys=set(ks), signatures=set(ss), signers=None)
+        return RequestBundle(id=bid, inception=inc, expiration=exp, keys=set(ks), signatures=set(ss), signers=None)
     # list-valued: /repo only iterates, so the visiting order is exactly the listed order
-    return RequestBundle.model_construct(id=bid, inception=us_dt(INC), expiration=us_dt(EXP), keys=ks, signatures=ss, signers=None)
+    return RequestBundle.model_construct(id=bid, inception=inc, expiration=exp, keys=ks, signatures=ss, signers=None)
 
 
 # ---- independent oracles ---------------------------------------------------------------------------------------------
@@ -181,9 +198,9 @@ def independent_accepts(case: dict[str, Any]) -> bool:
 
 
 def sign(tk: Any, key: dict[str, Any], keys: list[dict[str, Any]], *, over: list[dict[str, Any]] | None = None, ttl: int = 172800, ottl: int | None = None,
-         canonical: bool = True) -> dict[str, Any]:
+         canonical: bool = True, inc: int = INC, exp: int = EXP) -> dict[str, Any]:
     """An RRSIG by `tk` (the private half of `key`) over `over` (default: the whole key set), TBS by dnspython."""
-    s = {"id": key["id"], "ttl": ttl, "alg": key["alg"], "labels": 0, "ottl": ttl if ottl is None else ottl, "exp": EXP, "inc": INC, "tag": key["tag"], "name": ".", "sig": ""}
+    s = {"id": key["id"], "ttl": ttl, "alg": key["alg"], "labels": 0, "ottl": ttl if ottl is None else ottl, "exp": exp, "inc": inc, "tag": key["tag"], "name": ".", "sig": ""}
     covered = keys if over is None else over
     tbs = dns_tbs(s, covered)
     assert tbs is not None
